@@ -41,6 +41,23 @@ Deepening round (C06-d-* mutants / benign variants in selftest):
   R7 read_toml_file    normal form toml::from_str(&fs::read_to_string(P)?)? with P the parameter
   R8 schema/*          BuildpackPlan / Entry / Store / descriptor: spec keys -> same-named fields, unknown keys rejected,
                        metadata a TOML table, absent keys only filled with the empty value (lib/serde_schema)
+Robustness round 3 (benign variants selftest/benign/C06-r3-*): obligations restated on normal forms instead of one spelling
+  R2 argv-source       stated on the effect "the parser is called" reached from libcnb_runtime (lib/effects, argument in
+                       libcnb_runtime's terms), wherever the dispatch is split into helpers;  args-handed-on reads the alternatives
+                       of the handed-on value with "failure never gets here" resolved (C06_helpers.handed_alts: `?` / unwrap /
+                       unwrap_or_else(diverging), private enum wrappers such as Invocation::Detect(args) projected away)
+  R1/R3 filled arrays  `for (slot, row) in vals.iter_mut().zip(TABLE) { *slot = read(row)? }` is read slot by slot
+                       (C06_helpers.filled_array / resolve_filled); the fill is the one mutable borrow that */unmodified accepts,
+                       and what is written into the slots is followed instead (carried_locals_filled)
+  R4 collect, then insert   the element of an iteration over a Vec that starts empty and is only grown by push is what was pushed,
+                       under the guards of the push effect (C06_helpers.expand_collected); all-entries / unmodified cover both the
+                       collecting and the inserting loop, incl. the iterated collections themselves (collection_mutations);
+                       listing-tolerance(-exact) are decided in whichever private function lists the directory, and a failed
+                       helper call is looked at like a failed listing
+  R5 store/none        also where the None is produced in a closure handed to a Result combinator (`.or_else(|e| match e ..)`):
+                       the closure's parameter is the receiver's error (C06_helpers.closure_binding); every None site must comply
+  R7                   a private helper that is fs::read_to_string written out (File::open(p)?.read_to_string(&mut fresh)?, std's
+                       definition: C06_helpers.read_to_string_equiv) is read as that call
 Not decided: equality of parsed TOML values with the document (toml crate), file contents.
 """
 from .lib.discard import result_fates, local_fates, verdict
@@ -159,6 +176,9 @@ def run(ctx, rep):
     rep.not_decided = ['equality of parsed TOML values with the document (toml crate)', 'file contents']
     rd, rb = prog.fn(RD), prog.fn(RB)
     fd, fb = {}, {}
+    EF = Effects(prog, sl)
+    # the one mutable borrow of an array that is filled from a table is its fill: accounted for by reading its slots
+    filled = lambda fn_, l_: H.filled_array(EF, fn_, l_) is not None
     # ---- R1 ------------------------------------------------------------------------------------------
     for host, decl, adt in ((rd, 'libcnb::buildpack::Buildpack::detect', 'DetectContext'), (rb, 'libcnb::buildpack::Buildpack::build', 'BuildContext')):
         rep.analysed(host)
@@ -174,7 +194,9 @@ def run(ctx, rep):
         # every field value is brought to a normal form first: private helpers are inlined and `?`/`map`/`and_then`
         # are resolved to the success payload (value.inline_deep / mk_unwrap), so the rules below read the *sources*
         # of a field, however the assembly code is split into helpers
-        f = {k: sl.inline_deep(v, keep=KEEP) for k, v in cv[3]}
+        # (an array filled slot by slot from a literal table — `for (slot, row) in vals.iter_mut().zip(TABLE) { *slot = read(row)? }` —
+        # is read slot by slot: C06_helpers.resolve_filled)
+        f = {k: H.resolve_filled(EF, sl.inline_deep(v, keep=KEEP)) for k, v in cv[3]}
         adt_fields = sorted(x['name'] for v in prog.adt(cv[1])['variants'] for x in v['fields'])
         is_arg = lambda name: (lambda v: args_field(v, host.path, name))
         bp_dir = lambda v: stringy(v)[0] == 'unwrap' and env_var_name(stringy(v)[1]) == 'CNB_BUILDPACK_DIR'
@@ -199,7 +221,7 @@ def run(ctx, rep):
         # entries, editing a path): the locals that carry the context's parts are never borrowed mutably
         from .lib.mir import op_place as _opl
         p0 = _opl(c.args[1])
-        muts = H.inplace_mutations(host, H.carried_locals(host, [p0[0]])) if p0 else ['context operand is not a place']
+        muts = H.inplace_mutations(host, H.carried_locals_filled(EF, host, [p0[0]]), allow=filled) if p0 else ['context operand is not a place']
         rep.check(not muts, 'R1', adt + '/unmodified', c.where(), 'no part of the context is modified in place before the hand-over',
                   'an input is modified in place before it reaches %s: %s' % (adt, '; '.join(muts[:3])))
         # ---- R3 (per host: the Target handed to this phase) ------------------------------------------------
@@ -233,7 +255,7 @@ def run(ctx, rep):
     for path_, g in sorted(prog.reach([rd, rb]).items()):
         if g.crate == 'libcnb' and path_.startswith('libcnb::runtime::') and g.vis != 'pub' and g.kind in ('Fn', 'AssocFn', 'Closure') and g not in (rd, rb):
             rep.analysed(g)
-            hm.extend(H.inplace_mutations(g, H.carried_locals(g, [0])))
+            hm.extend(H.inplace_mutations(g, H.carried_locals_filled(EF, g, [0]), allow=filled))
     rep.check(not hm, 'R1', 'helpers/unmodified', '%s:%d' % (rd.file, rd.line), 'no assembly helper modifies in place what it hands back',
               'an input is modified in place inside an assembly helper: ' + '; '.join(hm[:3]))
     # ---- R2 ------------------------------------------------------------------------------------------
@@ -259,34 +281,47 @@ def run(ctx, rep):
     # the argv handed to the parsers is the process's argument list, element for element (no argument dropped, replaced or
     # re-encoded on the way: positions and paths are exactly what the lifecycle passed)
     from .lib import iters
-    for g in prog.find(r'^libcnb::runtime::libcnb_runtime(::\{closure#\d+\})*$'):
-        for c in g.calls:
-            if c.name in ('libcnb::runtime::DetectArgs::parse', 'libcnb::runtime::BuildArgs::parse') and c.args:
-                rep.analysed(g)
-                av = sl.inline_deep(sl.operand(g, c.args[0]))
-                al = iters.alts(sl, av)
-                ok = len(al) == 1 and al[0][1] is not None and not al[0][2] and strip(al[0][1])[0] == 'call' \
-                    and strip(al[0][1])[1] == 'std::env::args' and al[0][0] == iters.elem_of(al[0][1])
-                rep.check(ok, 'R2', 'argv-source/' + c.name.split('::')[-2], c.where(), 'argv = env::args(), element for element',
-                          'the argument list handed to %s is not env::args() unmodified: %s' % (c.name.split('::')[-2], vstr(av)[:140]))
-    # ... and what the phase entry points receive is the parser's result (a failed parse ends the process, it is not replaced)
-    from .lib.discard import diverges
-    for g in prog.find(r'^libcnb::runtime::libcnb_runtime(::\{closure#\d+\})*$'):
+    PARSERS = {'libcnb::runtime::DetectArgs::parse': 'DetectArgs', 'libcnb::runtime::BuildArgs::parse': 'BuildArgs'}
+    rt = prog.fns.get('libcnb::runtime::libcnb_runtime')
+    # stated on the *effect* "the parser is called" reached from libcnb_runtime (through closures and private helpers the
+    # dispatch is split into), with the argument in libcnb_runtime's terms
+    seen_parsers = set()
+    if rt is not None:
+        EP = Effects(prog, sl, vocab={n: ('PARSE_ARGS', 0) for n in PARSERS})
+        for e in EP.expand(rt, 'may'):
+            if e.kind != 'PARSE_ARGS' or not e.args:
+                continue
+            c = e.call
+            rep.analysed(c.fn)
+            seen_parsers.add(c.name)
+            av = sl.inline_deep(e.args[0])
+            al = iters.alts(sl, av)
+            ok = len(al) == 1 and al[0][1] is not None and not al[0][2] and strip(al[0][1])[0] == 'call' \
+                and strip(al[0][1])[1] == 'std::env::args' and al[0][0] == iters.elem_of(al[0][1])
+            rep.check(ok, 'R2', 'argv-source/' + PARSERS[c.name], c.where(), 'argv = env::args(), element for element',
+                      'the argument list handed to %s is not env::args() unmodified: %s' % (PARSERS[c.name], vstr(av)[:140]))
+    for n in sorted(set(PARSERS) - seen_parsers):
+        rep.unproven('R2', 'argv-source/' + PARSERS[n], '%s:%d' % (rd.file, rd.line), 'no call of %s reached from libcnb_runtime' % n)
+    # ... and what the phase entry points receive is the parser's result (a failed parse ends the process, it is not replaced):
+    # every alternative of the handed-on value, with "failure never gets here" resolved (C06_helpers.handed_alts: unwrap /
+    # unwrap_or_else(diverging) / `?`, enum wrappers around the parsed arguments projected away), is <Phase>Args::parse(..)'s payload
+    handed = set()
+    for g in prog.find(r'^libcnb::runtime::libcnb_runtime(::\{closure#\d+\})*$') + \
+            [h for p_, h in sorted(prog.reach([rt] if rt else []).items()) if h.crate == 'libcnb' and h.vis != 'pub' and p_.startswith('libcnb::runtime::')
+             and not p_.startswith('libcnb::runtime::libcnb_runtime')]:
         for c in g.calls:
             if c.name in (RD, RB) and len(c.args) == 2:
+                rep.analysed(g)
                 phase = 'Detect' if c.name == RD else 'Build'
-                av = strip(sl.inline_deep(sl.operand(g, c.args[1]), keep=('libcnb::runtime::DetectArgs::parse', 'libcnb::runtime::BuildArgs::parse')))
-                for _ in range(4):
-                    if av[0] == 'call' and av[1] in ('std::result::Result::<T, E>::unwrap', 'std::result::Result::<T, E>::expect') and av[2]:
-                        av = strip(av[2][0])
-                    elif av[0] == 'call' and av[1] == 'std::result::Result::<T, E>::unwrap_or_else' and len(av[2]) == 2 and av[2][1][0] in ('closure', 'fnitem') \
-                            and av[2][1][1] in prog.fns and diverges(prog.fns[av[2][1][1]]):
-                        av = strip(av[2][0])
-                    else:
-                        break
-                ok = av[0] == 'call' and av[1] == 'libcnb::runtime::%sArgs::parse' % phase
+                handed.add(phase)
+                av = sl.inline_deep(sl.operand(g, c.args[1]), keep=tuple(PARSERS))
+                al = [strip(x) for x in H.handed_alts(sl, prog, av)]
+                ok = bool(al) and all(x[0] == 'call' and x[1] == 'libcnb::runtime::%sArgs::parse' % phase for x in al)
+                bad_ = [x for x in al if not (x[0] == 'call' and x[1] == 'libcnb::runtime::%sArgs::parse' % phase)]
                 rep.check(ok, 'R2', 'args-handed-on/' + phase, c.where(), 'libcnb_runtime_%s receives %sArgs::parse(argv)' % (phase.lower(), phase),
-                          'libcnb_runtime_%s receives %s' % (phase.lower(), vstr(av)[:140]))
+                          'libcnb_runtime_%s receives %s' % (phase.lower(), vstr(bad_[0] if bad_ else av)[:140]))
+    for phase in sorted({'Detect', 'Build'} - handed):
+        rep.unproven('R2', 'args-handed-on/' + phase, '%s:%d' % (rd.file, rd.line), 'no call of libcnb_runtime_%s found in libcnb_runtime' % phase.lower())
     # ---- R4 ------------------------------------------------------------------------------------------
     pe = prog.fn('libcnb::platform::read_platform_env')
     rep.analysed(pe)
@@ -296,8 +331,12 @@ def run(ctx, rep):
     # (through private helpers, closures handed to iterator adapters / Option-Result combinators), with the inserted key /
     # value brought into the terms of read_platform_env and to their normal form (C06_helpers.resolve: payloads of private
     # helpers replaced by what each of their success alternatives returns, with that alternative's branch decisions).
-    E = Effects(prog, sl, vocab={INSERT: ('ENV_INSERT', 1)})
-    ins_effs = [e for e in E.expand(pe, 'may') if e.kind == 'ENV_INSERT']
+    voc = {INSERT: ('ENV_INSERT', 1)}
+    voc.update({n: ('VEC_PUSH', 0) for n in H.PUSH})
+    E = Effects(prog, sl, vocab=voc)
+    all_effs = E.expand(pe, 'may')
+    ins_effs = [e for e in all_effs if e.kind == 'ENV_INSERT']
+    push_effs = [e for e in all_effs if e.kind == 'VEC_PUSH']
     ins = {}
     for e in ins_effs:
         ins.setdefault((e.call.fn.path, e.call.bb), []).append(e)
@@ -314,6 +353,16 @@ def run(ctx, rep):
                     cases.append((tv[1][0], tv[1][1], own + gs))
                 else:
                     cases.append((('unknown', 'key'), ('unknown', 'value'), own + gs))
+        # collect first, insert afterwards: where key / value are the element of an iteration over a Vec that starts empty and
+        # is only grown by push, they are what was pushed, under the guards of that push (C06_helpers.expand_collected);
+        # the pushes must come before the iteration (a helper's returned Vec, or no way from the insert loop back to the push)
+        def order_ok(p_):
+            return all(p_.call.fn is not e_.call.fn or p_.call.bb not in e_.call.fn.reachable(e_.call.bb) for e_ in ins_effs)
+        used_pushes = []
+        cases4 = H.expand_collected(E, cases, push_effs, order_ok)
+        cases = [(k_, v_, gs_) for k_, v_, gs_, _u in cases4]
+        for _k, _v, _g, us_ in cases4:
+            used_pushes.extend(p_ for p_ in us_ if p_ not in used_pushes)
         okk = okv = okg = bool(cases)
         kv = vv = ('unknown', 'no feasible insert')
         guard = []
@@ -360,7 +409,7 @@ def run(ctx, rep):
                   'a regular file is additionally skipped unless: %s' % '; '.join(extra[:4]))
         # -- every entry of the listing is looked at: loops are left on success only by exhaustion, no truncating adapter
         probs, undecided = [], False
-        for e in ins_effs:
+        for e in ins_effs + used_pushes:
             pr = H.exhaustive_problems(E, e)
             if pr is None:
                 undecided = True
@@ -409,8 +458,21 @@ def run(ctx, rep):
             for e in ins_effs:
                 if e.call.fn is g:
                     starts.extend(_opl3(a)[0] for a in e.call.args[1:3] if _opl3(a))
+            for p_ in used_pushes:
+                if p_.call.fn is g:
+                    starts.extend(_opl3(a)[0] for a in p_.call.args[1:2] if _opl3(a))
             if starts:
-                im.extend(x for x in H.inplace_mutations(g, not_env(g, H.carried_locals(g, starts))) if x not in im)
+                # (a Vec that starts empty and is only ever pushed to is not "modified": the pushes are read as its contents)
+                im.extend(x for x in H.inplace_mutations(g, not_env(g, H.carried_locals(g, starts)), allow=H.grown_by_push_only) if x not in im)
+        # ... and the collections that are iterated on the way (the listing, a Vec of collected entries / pairs) are not
+        # changed in place either (sorted, truncated, elements edited through iter_mut): their only mutable uses are
+        # pulling the next element and, for a Vec grown from empty, push
+        from .lib.effects import Link as _Link
+        for e in ins_effs + used_pushes:
+            for call_ in [l_.call for l_ in e.chain if isinstance(l_, _Link)] + [e.call]:
+                for lp in E.loops(call_.fn):
+                    if call_.bb in lp.body and call_.bb != lp.header:
+                        im.extend(x for x in H.collection_mutations(call_.fn, H.collection_locals(call_.fn, lp)) if x not in im)
         rep.check(not im, 'R4', 'unmodified', c.where(), 'name and content are not modified in place between read and insert',
                   'a variable name / content is modified in place before it is inserted: ' + '; '.join(im[:3]))
         rep.check(not fresh, 'R4', 'fresh-env', pw, 'the returned Env starts empty (Env::new) and is the one the variables are inserted into',
@@ -437,53 +499,76 @@ def run(ctx, rep):
             rep.check(shape and not muts and always, 'R4', 'env-insert', pc.where(), 'Env::insert(k, v) stores (k.into(), v.into()) unconditionally',
                       'Env::insert does not store the pair it is given: map.insert(%s, %s)%s%s' % (vstr(kv_)[:50], vstr(vv_)[:50], ' after ' + '; '.join(muts[:2]) if muts else '',
                                                                                                      '' if always else ' (not on every path)'))
-    # NotFound tolerance on the listing
-    errs = [d for d in pe.whole_defs(0) if d[0] == 'stmt' and d[3]['r'] == 'agg' and d[3].get('variant') == 'Err']
-    oks = [d for d in pe.whole_defs(0) if d[0] == 'stmt' and d[3]['r'] == 'agg' and d[3].get('variant') == 'Ok']
-    tol_ok = False
-    detail = ''
-    for d in errs:
-        cds = conditions(pe, d[1], sl)
-        is_err = [cd for cd in cds if cd.kind == 'variant' and cd.outcome == frozenset({'Err'}) and strip(cd.subject)[0] == 'call' and strip(cd.subject)[1] == 'std::fs::read_dir']
-        # the NotFound test: `err.kind() == NotFound` / `!=` / `matches!(err.kind(), NotFound)`
-        nfs = []
-        for cd in cds:
-            if cd.kind == 'bool' and cd.value[0] == 'call' and cd.value[1] in ('std::cmp::PartialEq::ne', 'std::cmp::PartialEq::eq'):
-                rhs, lhs = strip(cd.value[2][1]), strip(cd.value[2][0])
-                is_nf = cd.outcome is False if cd.value[1].endswith('::ne') else cd.outcome is True
-                shape = rhs[0] == 'agg' and rhs[2] == 'NotFound' and lhs[0] == 'call' and lhs[1] == 'std::io::Error::kind'
-                nfs.append((cd, shape, is_nf, '%s vs %s' % (vstr(lhs)[:60], vstr(rhs)[:40])))
-            elif cd.kind == 'variant' and (cd.enum or '').endswith('io::ErrorKind') and strip(cd.subject)[0] == 'call' and strip(cd.subject)[1] == 'std::io::Error::kind':
-                nfs.append((cd, True, cd.outcome == frozenset({'NotFound'}), 'kind() in %s' % sorted(cd.outcome)))
-        if is_err and nfs:
-            cd, shape, is_nf, detail = nfs[-1]
-            # this Err result is produced on the not-NotFound side, and every way from the Err arm to a success return
-            # goes through that test
-            through = all(to[1] not in pe.reachable(is_err[-1].target, stop=[cd.sw_bb]) or to[1] == cd.sw_bb for to in oks)
-            tol_ok = shape and (not is_nf) and through
-    rep.check(tol_ok, 'R4', 'listing-tolerance', pw, 'a failed listing is tolerated only for ErrorKind::NotFound', 'listing error tolerance is not NotFound-only (%s)' % detail)
-    # ... and NotFound is the *only* kind that is tolerated: from the arm where the listing has failed, no success return is
-    # reachable except through a decision "kind is exactly NotFound"
+    # NotFound tolerance on the listing: decided in the function that lists the directory (read_platform_env itself or a private
+    # helper it delegates the walk to); a helper's failure reaches read_platform_env as a Result whose fate is R6's obligation
+    # and, below, is looked at like the listing's own failure
+    pfns = [pe] + [g for p_, g in sorted(prog.reach([pe]).items()) if g is not pe and g.crate == 'libcnb' and g.vis != 'pub' and g.kind in ('Fn', 'AssocFn')]
+    listers = [g for g in pfns if any(not c_.indirect and c_.name == 'std::fs::read_dir' for c_ in g.calls)]
+    via_lister = {g.path for g in listers}
+    grew = True
+    while grew:
+        grew = False
+        for g in pfns:
+            if g.path not in via_lister and any(c_.name in via_lister for c_ in g.calls):
+                via_lister.add(g.path)
+                grew = True
+
+    def listing_tolerance(lh):
+        errs = [d for d in lh.whole_defs(0) if d[0] == 'stmt' and d[3]['r'] == 'agg' and d[3].get('variant') == 'Err']
+        oks = [d for d in lh.whole_defs(0) if d[0] == 'stmt' and d[3]['r'] == 'agg' and d[3].get('variant') == 'Ok']
+        tol_ok = False
+        detail = ''
+        for d in errs:
+            cds = conditions(lh, d[1], sl)
+            is_err = [cd for cd in cds if cd.kind == 'variant' and cd.outcome == frozenset({'Err'}) and strip(cd.subject)[0] == 'call' and strip(cd.subject)[1] == 'std::fs::read_dir']
+            # the NotFound test: `err.kind() == NotFound` / `!=` / `matches!(err.kind(), NotFound)`
+            nfs = []
+            for cd in cds:
+                if cd.kind == 'bool' and cd.value[0] == 'call' and cd.value[1] in ('std::cmp::PartialEq::ne', 'std::cmp::PartialEq::eq'):
+                    rhs, lhs = strip(cd.value[2][1]), strip(cd.value[2][0])
+                    is_nf = cd.outcome is False if cd.value[1].endswith('::ne') else cd.outcome is True
+                    shape = rhs[0] == 'agg' and rhs[2] == 'NotFound' and lhs[0] == 'call' and lhs[1] == 'std::io::Error::kind'
+                    nfs.append((cd, shape, is_nf, '%s vs %s' % (vstr(lhs)[:60], vstr(rhs)[:40])))
+                elif cd.kind == 'variant' and (cd.enum or '').endswith('io::ErrorKind') and strip(cd.subject)[0] == 'call' and strip(cd.subject)[1] == 'std::io::Error::kind':
+                    nfs.append((cd, True, cd.outcome == frozenset({'NotFound'}), 'kind() in %s' % sorted(cd.outcome)))
+            if is_err and nfs:
+                cd, shape, is_nf, detail = nfs[-1]
+                # this Err result is produced on the not-NotFound side, and every way from the Err arm to a success return
+                # goes through that test
+                through = all(to[1] not in lh.reachable(is_err[-1].target, stop=[cd.sw_bb]) or to[1] == cd.sw_bb for to in oks)
+                tol_ok = shape and (not is_nf) and through
+        return tol_ok, detail
+    tols = [listing_tolerance(g) for g in (listers or [pe])]
+    for g in listers:
+        rep.analysed(g)
+    rep.check(all(t for t, _ in tols), 'R4', 'listing-tolerance', pw, 'a failed listing is tolerated only for ErrorKind::NotFound',
+              'listing error tolerance is not NotFound-only (%s)' % '; '.join(d_ for _, d_ in tols))
+    # ... and NotFound is the *only* kind that is tolerated: from the arm where the listing (or the private helper doing the
+    # listing) has failed, no success return is reachable except through a decision "kind is exactly NotFound"
     from .lib.effects import success_sites
-    ok_bbs = {st.bb for st in success_sites(pe)}
     leaks, arms = [], 0
-    for bi in range(len(pe.blocks)):
-        t = pe.blocks[bi]['t']
-        if t['t'] != 'switch':
-            continue
-        for tb in set([x for _, x in t['targets']] + [t['else']]):
-            cd = H.edge_cond(pe, bi, tb, sl)
-            if cd is not None and cd.kind == 'variant' and cd.outcome == frozenset({'Err'}) and cd.subject is not None \
-                    and strip(cd.subject)[0] == 'call' and strip(cd.subject)[1] == 'std::fs::read_dir':
-                arms += 1
-                leaks.extend(H.tolerated_without_not_found(pe, sl, tb, ok_bbs))
+    for g in [h for h in pfns if h.path in via_lister]:
+        ok_bbs = {st.bb for st in success_sites(g)}
+        for bi in range(len(g.blocks)):
+            t = g.blocks[bi]['t']
+            if t['t'] != 'switch':
+                continue
+            for tb in set([x for _, x in t['targets']] + [t['else']]):
+                cd = H.edge_cond(g, bi, tb, sl)
+                if cd is None or cd.kind != 'variant' or cd.subject is None or cd.outcome not in (frozenset({'Err'}), frozenset({'Break'})):
+                    continue
+                root = H.success_root(cd.subject)
+                direct = cd.outcome == frozenset({'Err'}) and strip(cd.subject)[0] == 'call' and strip(cd.subject)[1] == 'std::fs::read_dir'
+                if direct or (root[0] == 'call' and (root[1] == 'std::fs::read_dir' or root[1] in via_lister)):
+                    arms += 1
+                    leaks.extend('%s bb%d' % (g.path.split('::')[-1], b_) for b_ in H.tolerated_without_not_found(g, sl, tb, ok_bbs))
     if arms == 0:
-        # the listing's failure is not matched in read_platform_env itself (`?` / combinators): nothing is tolerated here;
+        # the listing's failure is not matched anywhere (`?` / combinators): nothing is tolerated here;
         # whether NotFound is tolerated at all is the obligation above
         rep.holds('R4', 'listing-tolerance-exact', pw, 'no explicit Err arm on the listing in read_platform_env')
     else:
         rep.check(not leaks, 'R4', 'listing-tolerance-exact', pw, 'from the failed-listing arm, success is reachable only under kind() == NotFound',
-                  'a failed listing of <platform>/env ends in success for error kinds other than NotFound (success at bb%s)' % sorted(set(leaks)))
+                  'a failed listing of <platform>/env ends in success for error kinds other than NotFound (success at %s)' % sorted(set(leaks)))
     gp = prog.fn('<libcnb::generic::GenericPlatform as libcnb::platform::Platform>::from_path')
     rep.analysed(gp)
     v = sl.inline_deep(sl.mk_unwrap(sl.local(gp, 0), 1), keep=(pe.path,))
@@ -503,7 +588,21 @@ def run(ctx, rep):
     hosts = [g for g in prog.reach([rb]).values() if g.crate == 'libcnb' and g.kind != 'Closure'
              and any((c.name or '').endswith('read_toml_file') for c in g.calls)
              and any(x == ('const', 'store.toml') for c in g.calls if (c.name or '').endswith('read_toml_file') for x in walk(sl.operand(g, c.args[0])))]
-    for g in hosts:
+    # the alternative `None` may be produced in the host itself or in a closure it hands to a Result combinator
+    # (`.or_else(|e| match e { IoError(io) if not_found(io) => Ok(None), other => Err(other) })`): there the closure's
+    # parameter is the error of the combinator's receiver (C06_helpers.closure_binding), which is the `Err` decision
+    E5 = Effects(prog, sl)
+    is_store_read = lambda x: x[0] == 'call' and x[1].endswith('read_toml_file')
+    scan, none_sites = [], []
+    for h in hosts:
+        scan.append((h, None, None))
+        for cl in prog.closures_of(h):
+            cb = H.closure_binding(E5, cl)
+            if cb is not None:
+                scan.append((cl, cb[0], cb[1]))
+            elif any(s_[0] == '=' and s_[2]['r'] == 'agg' and s_[2].get('variant') == 'None' for b_ in cl.blocks for s_ in b_['s']):
+                scan.append((cl, None, {}))
+    for g, comb, bind in scan:
         rep.analysed(g)
         for bi, b in enumerate(g.blocks):
             for s in b['s']:
@@ -518,14 +617,21 @@ def run(ctx, rep):
                     continue
                 if inner[0] == 'agg' and inner[2] == 'None' and (s[1] != [0] or g is not rb):
                     cds = conditions(g, bi, sl)
-                    e1 = any(cd.kind == 'variant' and cd.outcome == frozenset({'Err'}) and any(x[0] == 'call' and x[1].endswith('read_toml_file') for x in walk(cd.subject)) for cd in cds)
+                    in_terms = (lambda x: E5.subst(x, bind)) if bind else (lambda x: x)
+                    e1 = any(cd.kind == 'variant' and cd.outcome == frozenset({'Err'}) and any(is_store_read(x) for x in walk(cd.subject)) for cd in cds)
+                    if bind:
+                        # the closure only runs for the error of its receiver, and that receiver is the store read
+                        pb = bind.get((g.path, 1))
+                        e1 = e1 or (pb is not None and pb[0] == 'unwrap_err' and any(is_store_read(x) for x in walk(pb[1])))
                     e2 = any(cd.kind == 'variant' and cd.outcome == frozenset({'IoError'}) for cd in cds)
                     # "the I/O error is NotFound": the workspace's not-found predicate, or `kind() == NotFound` / `matches!`
                     # written out (C06_helpers.not_found_test) on an error that stems from this read
-                    e3 = any(holds is True and any(x[0] == 'call' and x[1].endswith('read_toml_file') for x in walk(ev))
+                    e3 = any(holds is True and any(is_store_read(x) for x in walk(in_terms(ev)))
                              for cd in cds for ev, holds in H.not_found_test(cd.views() if cd.kind == 'bool' else [], cd, nf_pred))
-                    st_ok = e1 and e2 and e3
-                    detail = 'Err=%s IoError=%s not_found=%s' % (e1, e2, e3)
+                    none_sites.append(e1 and e2 and e3)
+                    if all(none_sites[:-1]):
+                        detail = 'Err=%s IoError=%s not_found=%s' % (e1, e2, e3)
+    st_ok = bool(none_sites) and all(none_sites)
     rep.check(st_ok, 'R5', 'store/none', '%s:%d' % (rb.file, rb.line), 'store = None only for Err(IoError(e)) with e.kind() == NotFound', 'store tolerance: ' + detail)
     # the store handed to build is, in every alternative, either None or Some(the parsed <layers>/store.toml): no stand-in
     # (default / empty store) for a store that could not be read
@@ -570,11 +676,22 @@ def run(ctx, rep):
     else:
         rep.analysed(tf)
         tw = '%s:%d' % (tf.file, tf.line)
-        tv = sl.inline_deep(sl.mk_unwrap(sl.local(tf, 0), 1))
+        # a private helper that is fs::read_to_string written out (File::open(p)?.read_to_string(&mut fresh String)?, std's own
+        # definition: C06_helpers.read_to_string_equiv) is read as that call instead of being inlined (its buffer is filled in place)
+        equiv = {}
+        for path_, g in prog.reach([tf]).items():
+            if g is not tf and g.crate == tf.crate:
+                i_ = H.read_to_string_equiv(prog, sl, g)
+                if i_ is not None:
+                    equiv[path_] = i_
+                    rep.analysed(g)
+        tv = sl.inline_deep(sl.mk_unwrap(sl.local(tf, 0), 1), keep=tuple(equiv))
         doc = core(tv)
         parsed = propagated(tv) and doc[0] == 'call' and doc[1] in ('toml::from_str', 'toml::de::from_str') and len(doc[2]) == 1
         text = H.same_string(doc[2][0]) if parsed else ('unknown',)
         rd_ = core(text)
+        if rd_[0] == 'call' and rd_[1] in equiv and equiv[rd_[1]] < len(rd_[2]):
+            rd_ = ('call', 'std::fs::read_to_string', (rd_[2][equiv[rd_[1]]],), rd_[3] if len(rd_) > 3 else None)
         ok = parsed and propagated(text) and rd_[0] == 'call' and rd_[1] == 'std::fs::read_to_string' and len(rd_[2]) == 1 \
             and H.same_string(strip(rd_[2][0]))[0] == 'param' and H.same_string(strip(rd_[2][0]))[1] == tf.path
         rep.check(ok, 'R7', 'read_toml_file', tw, 'read_toml_file(P) = toml::from_str(&fs::read_to_string(P)?)?',
